@@ -8,7 +8,7 @@ import proofs
 import minerals_trace as MT
 from props import c01
 
-FILES = ["Model_core.v", "Model_minerals.v", "Proofs_core.v", "Proofs_minerals.v", "Proofs_flow.v", "Proofs_rhs.v",
+FILES = ["Model_core.v", "Model_minerals.v", "Proofs_core.v", "Proofs_minerals.v", "Proofs_flow.v", "Proofs_path.v", "Proofs_rhs.v",
          "Entry_core.v", "Extract_core.v"]
 PROP = "Properties/C05.v"
 KS = [1e-16, 1e-15, 1e-12, 1e-8, 1e-4, 1.0, 10.0, 1e3]
